@@ -866,6 +866,14 @@ def complex_cases(rng, tier):
     add("linspace", "complex start, real stop", (lambda m, a: m.linspace(1.0 - 2.0j, a, 4)), [3.0], [0], False)
     add("stack", "real piece among complex constants", (lambda m, a: m.stack([a, onp.array([1j, 2j, 3j])]) * (1.0 + 2.0j)), [iarr(rng, (3,))], [0], True)
     add("concatenate", "real piece among complex constants", (lambda m, a: m.concatenate([onp.array([1j]), a, onp.array([2.0 + 1j])]) * 1j), [iarr(rng, (3,))], [0], True)
+    # real -> complex -> real through the real FFTs, for every spelling of the normalisation
+    xr46 = distinct(rng, (4, 6))
+    Kc = onp.fft.rfft2(distinct(rng, (4, 6), 0.7, 0.1))
+    for nrm in (None, "backward", "ortho", "forward"):
+        for rf, irf in (("rfft", "irfft"), ("rfft2", "irfft2"), ("rfftn", "irfftn")):
+            add("fft." + rf, "real input, norm=%r" % (nrm,), (lambda m, z, rf=rf, nrm=nrm: getattr(m.fft, rf)(z, norm=nrm)), [xr46], [0], False)
+            add("composite", "real->%s->*K->%s->sin, norm=%r" % (rf, irf, nrm),
+                (lambda m, z, rf=rf, irf=irf, nrm=nrm: m.sin(getattr(m.fft, irf)(getattr(m.fft, rf)(z, norm=nrm) * (Kc if rf != "rfft" else Kc[0]), norm=nrm))), [xr46], [0], False)
     add("trace", "complex", (lambda m, a: m.trace(a)), [cm], [0], False)
     add("matmul", "complex chain", (lambda m, a, b: m.matmul(m.matmul(a, b), m.conj(a))), [cm, cb], [0, 1], False)
     # real -> complex -> real composite gets a real gradient equal to the purely real one
